@@ -347,6 +347,9 @@ pub(crate) struct State {
 
 pub struct Shared {
     pub(crate) st: Mutex<State>,
+    /// copy of `State::now` that can be read without the lock (the process-wide clock seam reads it from inside
+    /// system-call wrappers, where taking the lock could deadlock)
+    pub(crate) now_mirror: std::sync::atomic::AtomicU64,
 }
 
 pub type K = Arc<Shared>;
@@ -619,6 +622,7 @@ pub(crate) fn switch<'a>(sh: &'a Shared, mut g: MutexGuard<'a, State>, me: Optio
             }
             if tm.t > g.now {
                 g.now = tm.t;
+                sh.now_mirror.store(tm.t, std::sync::atomic::Ordering::Relaxed);
             }
             g.history.events += 1;
             g.fire(tm.ev);
@@ -826,7 +830,7 @@ impl Sim {
             trace_on: cfg.trace,
             graveyard: Vec::new(),
         };
-        Sim { k: Arc::new(Shared { st: Mutex::new(st) }) }
+        Sim { k: Arc::new(Shared { st: Mutex::new(st), now_mirror: std::sync::atomic::AtomicU64::new(0) }) }
     }
 
     pub fn add_host(&self, name: &str, addrs: Vec<IpAddr>) {
@@ -981,6 +985,13 @@ pub fn now_ns() -> u64 {
     let (k, _) = cur();
     let g = k.lock();
     g.now
+}
+
+/// current simulated time when the calling thread belongs to a simulated run, None on any other thread (and while
+/// a thread's locals are being torn down).  No scheduling point, no log entry, no draw.
+pub fn try_now_ns() -> Option<u64> {
+    let cur = CUR.try_with(|c| c.try_borrow().ok().and_then(|b| b.clone())).ok().flatten()?;
+    Some(cur.0.now_mirror.load(std::sync::atomic::Ordering::Relaxed))
 }
 
 /// let simulated time pass on the calling simulated thread (caller "think time")
